@@ -117,12 +117,15 @@ structure LevX (S : TSys σ κ) (s₀ : σ) (d : Nat) (L1 L2 : List σ) (E : Lis
   cover : ∀ m x, m ≤ d → ReachN S s₀ m x →
     (∃ e ∈ E, S.key e = S.key x) ∨ ∃ x' ∈ L1, S.key x' = S.key x
 
-theorem isFail_congr {S : TSys σ κ} (hc : Congruent S) {a b : σ} (hk : S.key a = S.key b)
-    (h : isFail (S.verdict a) = false) : isFail (S.verdict b) = false := by
-  rw [← (hc a b hk).1]; exact h
+theorem isFail_congr {S : TSys σ κ} {Inv : σ → Prop} (hc : CongruentOn S Inv) {a b : σ} (ha : Inv a)
+    (hb : Inv b) (hk : S.key a = S.key b) (h : isFail (S.verdict a) = false) :
+    isFail (S.verdict b) = false := by
+  rw [← (hc a b ha hb hk).1]; exact h
 
-theorem LevX.shift {S : TSys σ κ} (hc : Congruent S) {s₀ : σ} {d : Nat} {L2 : List σ} {c : Cache κ}
-    {E : List σ} (h : LevX S s₀ d [] L2 E) (hb : BInv S L2 c E) : LevX S s₀ (d + 1) L2 [] E := by
+theorem LevX.shift {S : TSys σ κ} {Inv : σ → Prop} (hc : CongruentOn S Inv) (hcl : InvClosed S Inv)
+    {s₀ : σ} (h0 : Inv s₀) {d : Nat} {L2 : List σ} {c : Cache κ}
+    {E : List σ} (hE : ∀ e ∈ E, Inv e) (h : LevX S s₀ d [] L2 E) (hb : BInv S L2 c E) :
+    LevX S s₀ (d + 1) L2 [] E := by
   have hcov : ∀ m x, m ≤ d → ReachN S s₀ m x → ∃ e ∈ E, S.key e = S.key x := by
     intro m x hm hx
     rcases h.cover m x hm hx with hx | ⟨x', hx', _⟩
@@ -131,14 +134,14 @@ theorem LevX.shift {S : TSys σ κ} (hc : Congruent S) {s₀ : σ} {d : Nat} {L2
   refine ⟨?_, h.lev2, by simp, ?_⟩
   · intro m x hm hx
     obtain ⟨e, he, hk⟩ := hcov m x (Nat.le_of_lt_succ hm) hx
-    exact isFail_congr hc hk (hb.noFail e he)
+    exact isFail_congr hc (hE e he) (inv_of_reachN hcl h0 hx) hk (hb.noFail e he)
   · intro m x hm hx
     rcases Nat.lt_or_eq_of_le hm with hm | rfl
     · exact Or.inl (hcov m x (Nat.le_of_lt_succ hm) hx)
     · cases hx with
       | @step _ y _ cs hy hv hs hmem =>
         obtain ⟨e, he, hk⟩ := hcov d y (Nat.le_refl _) hy
-        obtain ⟨hve, _, hsucc, _⟩ := hc y e hk.symm
+        obtain ⟨hve, _, hsucc, _⟩ := hc y e (inv_of_reachN hcl h0 hy) (hE e he) hk.symm
         obtain ⟨cb, hcb, hkeys⟩ := hsucc cs hs
         have hkx : S.key x ∈ cb.map S.key := by
           rw [← hkeys]; exact List.mem_map_of_mem hmem
@@ -173,45 +176,59 @@ def InvX (S : TSys σ κ) (s₀ : σ) (q : List σ) (a : Acc σ κ) : Prop :=
   ExactCache S a.cache.mode ∧ BInv S q a.cache a.evald ∧
     ∃ d L1 L2, q = L1 ++ L2 ∧ LevX S s₀ d L1 L2 a.evald
 
-theorem InvX.normalize {S : TSys σ κ} (hc : Congruent S) {s₀ : σ} {s : σ} {q : List σ} {a : Acc σ κ}
-    (h : InvX S s₀ (s :: q) a) :
+theorem InvX.normalize {S : TSys σ κ} {Inv : σ → Prop} (hc : CongruentOn S Inv) (hcl : InvClosed S Inv)
+    {s₀ : σ} (h0 : Inv s₀) {s : σ} {q : List σ} {a : Acc σ κ}
+    (hE : ∀ e ∈ a.evald, Inv e) (h : InvX S s₀ (s :: q) a) :
     ∃ d L1 L2, q = L1 ++ L2 ∧ LevX S s₀ d (s :: L1) L2 a.evald := by
   obtain ⟨_, hb, d, L1, L2, hq, hl⟩ := h
   cases L1 with
   | nil =>
     simp only [List.nil_append] at hq
     subst hq
-    exact ⟨d + 1, q, [], by simp, hl.shift hc hb⟩
+    exact ⟨d + 1, q, [], by simp, hl.shift hc hcl h0 hE hb⟩
   | cons x L1 =>
     simp only [List.cons_append, List.cons.injEq] at hq
     obtain ⟨rfl, rfl⟩ := hq
     exact ⟨d, L1, L2, rfl, hl⟩
 
-theorem bfs_minDepth_exact (S : TSys σ κ) (hc : Congruent S) (s₀ : σ) (n : Nat) (q : List σ)
+theorem bfs_minDepth_exact (S : TSys σ κ) (Inv : σ → Prop) (hc : CongruentOn S Inv)
+    (hcl : InvClosed S Inv) (s₀ : σ) (h0 : Inv s₀) (n : Nat) (q : List σ)
     (a : Acc σ κ) (msg : String) (e : σ) (a' : Acc σ κ)
-    (h : bfsLoop S n q a = some (.err msg e, a')) (hinv : InvX S s₀ q a) : MinDepth S s₀ e := by
-  refine bfs_rule S (I := InvX S s₀) (F := fun r _ => ∀ msg e, r = .err msg e → MinDepth S s₀ e)
-    ?_ ?_ ?_ ?_ ?_ n q a (.err msg e) a' hinv h msg e rfl
+    (h : bfsLoop S n q a = some (.err msg e, a')) (hinv : InvX S s₀ q a)
+    (hE : ∀ e ∈ a.evald, Inv e) : MinDepth S s₀ e := by
+  have hstep : ∀ (s : σ) (a : Acc σ κ) {d : Nat} {L1 L2 : List σ},
+      LevX S s₀ d (s :: L1) L2 a.evald → (∀ e ∈ a.evald, Inv e) →
+      ∀ e ∈ (a.check S s).1.evald, Inv e := by
+    intro s a d L1 L2 hl hE e he
+    rw [check_evald] at he
+    rcases List.mem_append.mp he with he | he
+    · exact hE e he
+    · simp only [List.mem_singleton] at he; subst he
+      exact inv_of_reachN hcl h0 (hl.lev1 e (List.mem_cons_self ..))
+  refine bfs_rule S (I := fun q a => InvX S s₀ q a ∧ ∀ e ∈ a.evald, Inv e)
+    (F := fun r _ => ∀ msg e, r = .err msg e → MinDepth S s₀ e)
+    ?_ ?_ ?_ ?_ ?_ n q a (.err msg e) a' ⟨hinv, hE⟩ h msg e rfl
   · intro a _ _ _ h; cases h
   · intro s q a msg h _ msg' e he
     cases he
-    obtain ⟨d, L1, L2, _, hl⟩ := h.normalize hc
+    obtain ⟨d, L1, L2, _, hl⟩ := h.1.normalize hc hcl h0 h.2
     exact hl.minDepth
   · intro s q a st h hv
-    obtain ⟨d, L1, L2, hq, hl⟩ := h.normalize hc
-    refine ⟨by rw [check_cache]; exact h.1, ?_, d, L1, L2, hq, ?_⟩
-    · rw [check_cache, check_evald]; exact h.2.1.stop hv
+    obtain ⟨d, L1, L2, hq, hl⟩ := h.1.normalize hc hcl h0 h.2
+    refine ⟨⟨by rw [check_cache]; exact h.1.1, ?_, d, L1, L2, hq, ?_⟩, hstep s a hl h.2⟩
+    · rw [check_cache, check_evald]; exact h.1.2.1.stop hv
     · rw [check_evald]
       have := hl.step (added := []) (by simp)
       simpa using this
   · intro s q a e _ _ _ _ _ h; cases h
   · intro s q a cs h hv hs
-    obtain ⟨d, L1, L2, hq, hl⟩ := h.normalize hc
-    obtain ⟨added, h1, h2, h3, _⟩ := bfsEnqueue_exact S cs q a.cache h.1
-    refine ⟨by rw [h2]; exact h.1, ?_, d, L1, L2 ++ added, by rw [h1, hq, List.append_assoc], ?_⟩
+    obtain ⟨d, L1, L2, hq, hl⟩ := h.1.normalize hc hcl h0 h.2
+    obtain ⟨added, h1, h2, h3, _⟩ := bfsEnqueue_exact S cs q a.cache h.1.1
+    refine ⟨⟨by rw [h2]; exact h.1.1, ?_, d, L1, L2 ++ added, by rw [h1, hq, List.append_assoc], ?_⟩,
+      hstep s a hl h.2⟩
     · show BInv S (bfsEnqueue S cs q a.cache).1 (bfsEnqueue S cs q a.cache).2 (a.check S s).1.evald
       rw [check_evald]
-      exact h.2.1.cont h.1 hv hs
+      exact h.1.2.1.cont h.1.1 hv hs
     · show LevX S s₀ d L1 (L2 ++ added) (a.check S s).1.evald
       rw [check_evald]
       exact hl.step (fun x hx =>
